@@ -25,7 +25,8 @@ UNOPS = [("-", "O_NEG"), ("~", "O_NOT"), ("!", "O_LNOT"), ("+", "O_POS")]
 BF = [("u1", "unsigned", 1, 0, 3), ("u3", "unsigned", 3, 0, 3), ("u16", "unsigned", 16, 0, 3), ("u31", "unsigned", 31, 0, 3),
       ("u32", "unsigned", 32, 0, 7), ("i1", "signed int", 1, 1, 3), ("i5", "signed int", 5, 1, 3), ("i31", "signed int", 31, 1, 3),
       ("i32", "signed int", 32, 1, 3), ("b1", "_Bool", 1, 0, 3)]
-NT = 9 + len(BF)
+ENUM_T = 9 + len(BF)          # pseudo-type: object of an enumerated type with a negative enumerator (compatible type: int)
+NT = ENUM_T + 1
 GENERIC = "_Bool:0, char:1, short:2, int:3, long:4, unsigned char:5, unsigned short:6, unsigned int:7, unsigned long:8, default:99"
 
 
@@ -34,6 +35,7 @@ def slot(i, t): return ("slot", i, t)
 def text(n):
     k = n[0]
     if k == "slot":
+        if n[2] == ENUM_T: return "FN(EN%d)" % n[1]
         if n[2] >= 9: return "FN(BF%d).%s" % (n[1], BF[n[2] - 9][0])
         return "FN(S%d_%s)" % (n[1], TN[n[2]])
     if k == "const": return n[3]
@@ -54,7 +56,7 @@ def emit_model(n, out):
     def node(kk, a=0, b=0, l=-1, r=-1, c=-1):
         out.append("{%s,%s,%s,%d,%d,%d}" % (kk, a, b, l, r, c))
         return len(out) - 1
-    if k == "slot": return node("K_SLOT", n[1], BF[n[2] - 9][4] if n[2] >= 9 else n[2])
+    if k == "slot": return node("K_SLOT", n[1], 3 if n[2] == ENUM_T else BF[n[2] - 9][4] if n[2] >= 9 else n[2])
     if k == "const": return node("K_CONST", n[1], n[2])
     if k == "bin":
         l = emit_model(n[2], out); r = emit_model(n[3], out); return node("K_BIN", n[1][1], 0, l, r)
@@ -146,6 +148,19 @@ def gen_cases(tier):
         for d in T:
             cases.append(Case("E/cast/%s<-%s" % (TN[d], tname(b)), ("cast", d, slot(0, b)), [b]))
             cases.append(Case("E/cond/%s,%s" % (tname(b), TN[d]), ("cond", slot(2, 3), slot(0, b), slot(1, d)), [b, d, 3], grid="cond"))
+    # Layer F: objects of enumerated type as operands and conversion sources (they behave as int)
+    for op in BINOPS:
+        for t in T:
+            cases.append(Case("F/enum-op/%s/%s" % (op[0], TN[t]), ("bin", op, slot(0, ENUM_T), slot(1, t)), [ENUM_T, t], grid="small", typed=False))
+            cases.append(Case("F/op-enum/%s/%s" % (op[0], TN[t]), ("bin", op, slot(0, t), slot(1, ENUM_T)), [t, ENUM_T], grid="small", typed=False))
+    for op in UNOPS:
+        cases.append(Case("F/un/%s/enum" % op[0], ("un", op, slot(0, ENUM_T)), [ENUM_T], typed=False))
+    for d in T:
+        cases.append(Case("F/cast/%s<-enum" % TN[d], ("cast", d, slot(0, ENUM_T)), [ENUM_T], typed=False))
+    for fl in ("float", "double", "long double"):
+        # conversion to a floating type must agree with the conversion of the same value held in an int
+        cases.append(Case("F/via-%s/enum" % fl.replace(" ", ""), ("const", 1, 3, "1"), [ENUM_T], typed=False,
+                          body="%s f = %s; int i = %s; %s g = i; return f == g;" % (fl, text(slot(0, ENUM_T)), text(slot(0, ENUM_T)), fl)))
     # Layer D: pointer arithmetic / difference / comparison; element sizes 1..24, integer operand of every type
     MUL, ADD, SUB = BINOPS[2], BINOPS[0], BINOPS[1]
     def scaled(sl, sz): return ("bin", MUL, ("cast", 4, sl), ("const", sz, 4, str(sz)))
@@ -215,10 +230,12 @@ ELEM = [1, 2, 3, 4, 8, 12, 24]
 
 
 def tname(t):
-    return TN[t] if t < 9 else "bf:" + BF[t - 9][0]
+    return TN[t] if t < 9 else "enum" if t == ENUM_T else "bf:" + BF[t - 9][0]
 
 
 def grid_values(t, kind):
+    if t == ENUM_T:
+        return grid_values(3, kind if kind != "full" else "small")
     if t >= 9:
         name, decl, w, sg, prom = BF[t - 9]
         lo, hi = (-(1 << (w - 1)), (1 << (w - 1)) - 1) if sg else (0, (1 << w) - 1)
@@ -264,6 +281,7 @@ def build_batch(bidx, cases):
     u.append("enum { FN(E_NEG) = -5, FN(E_MAX) = 2147483647 };")
     u.append("struct FN(BFS) { %s };" % " ".join("%s %s:%d;" % (d, n, w) for n, d, w, sg, pr in BF))
     u.append("struct FN(BFS) FN(BF0), FN(BF1);")
+    u.append("enum FN(En) { FN(En_neg) = -1, FN(En_pos) = 1 }; enum FN(En) FN(EN0), FN(EN1);")
     u.append("char FN(arena)[16384];")
     for sz in ELEM:
         u.append("typedef struct { char c[%d]; } E%d;" % (sz, sz))
@@ -289,6 +307,7 @@ def build_batch(bidx, cases):
             for t in range(9):
                 d.append("extern %s %sS%d_%s;" % (TYPES[t], pfx, s, TN[t]))
         d.append("struct %sBFS { %s }; extern struct %sBFS %sBF0, %sBF1;" % (pfx, " ".join("%s %s:%d;" % (dd, n, w) for n, dd, w, sg, pr in BF), pfx, pfx, pfx))
+        d.append("extern int %sEN0, %sEN1;" % (pfx, pfx))
         d.append("extern int %stypes[], %ssizes[];" % (pfx, pfx))
         for i in range(len(cases)):
             d.append("long %sf%d(void);" % (pfx, i))
@@ -299,6 +318,7 @@ def build_batch(bidx, cases):
         if s < 2:
             for k, (n, dd, w, sg, pr) in enumerate(BF):
                 d.append("case %d: cc_BF%d.%s = v; ref_BF%d.%s = v; break;" % (s * NT + 9 + k, s, n, s, n))
+            d.append("case %d: cc_EN%d = (int)v; ref_EN%d = (int)v; break;" % (s * NT + ENUM_T, s, s))
     d.append("} }")
     d.append("static long get_slot(int cc, int s, int t) { switch (s * %d + t) {" % NT)
     for s in range(3):
